@@ -1422,8 +1422,8 @@ def run(ctx):
         t, g, d = build_fixed(name)
         run_case(ctx, t, g + " (again)", d, tags=("fixed", name, "end-of-run"), label=name)
         ctx.count("fixed-corpus-again")
-    if os.path.isdir(TMP) and not os.listdir(TMP):
-        os.rmdir(TMP)
+    # the directory itself stays: it is shared with the other workers / concurrent runs of this check (removing it when it
+    # happens to be empty raced with a worker about to create a file in it)
 
 
 def replay(ctx, rec):
